@@ -497,4 +497,88 @@ theorem tokenize_slice (d : Delims) : ∀ (ps : List Piece) (pre : Str) (st : Le
           simpa [assemble, List.append_assoc] using this
 
 
+/-! ## well-formed text is clean (default delimiters) -/
+
+theorem startsWith_append : ∀ (p a b : Str), startsWith p a = true → startsWith p (a ++ b) = true
+  | [], _, _, _ => by simp [startsWith]
+  | _ :: _, [], _, h => by simp [startsWith] at h
+  | x :: p, c :: a, b, h => by
+    simp only [startsWith, Bool.and_eq_true] at h
+    simp only [List.cons_append, startsWith, Bool.and_eq_true]
+    exact ⟨h.1, startsWith_append p a b h.2⟩
+
+theorem lstrip_suffix (s : Str) : ∃ w, s = w ++ lstrip s := by
+  induction s with
+  | nil => exact ⟨[], rfl⟩
+  | cons c cs ih =>
+    by_cases h : isSpace c = true
+    · obtain ⟨w, hw⟩ := ih
+      exact ⟨c :: w, by simp only [lstrip, h, if_true, List.cons_append]; rw [← hw]⟩
+    · exact ⟨[], by simp [lstrip, h]⟩
+
+theorem rstrip_prefix (s : Str) : ∃ w, s = rstrip s ++ w := by
+  obtain ⟨w, hw⟩ := lstrip_suffix s.reverse
+  refine ⟨w.reverse, ?_⟩
+  have := congrArg List.reverse hw
+  simpa [rstrip] using this
+
+theorem allSuffixes_split (f : Str → Bool) : ∀ (w t next : Str), t ≠ [] →
+    allSuffixes f (w ++ t) next = true → f (t ++ next) = true
+  | [], t, next, ht, h => by
+    cases t with
+    | nil => exact absurd rfl ht
+    | cons c cs => simp only [List.nil_append, allSuffixes, Bool.and_eq_true] at h; exact h.1
+  | x :: w, t, next, ht, h => by
+    simp only [List.cons_append, allSuffixes, Bool.and_eq_true] at h
+    exact allSuffixes_split f w t next ht h.2
+
+/-- a variant `v` of `s` obtained by stripping does not begin like markup when no suffix of `s` does -/
+theorem strip_variant_clean (f : Str → Bool) (p : Str) (hp : p ≠ [])
+    (hf : ∀ t, startsWith p t = true → f t = false)
+    (s next : Str) (h : allSuffixes f s next = true) (a b : Bool) :
+    startsWith p (applyStrip a b s) = false := by
+  -- applyStrip a b s = v where s = w1 ++ (v ++ w2)
+  have hsplit : ∃ w1 w2, s = w1 ++ (applyStrip a b s ++ w2) := by
+    cases a <;> cases b
+    · exact ⟨[], [], by simp [applyStrip]⟩
+    · obtain ⟨w, hw⟩ := rstrip_prefix s
+      exact ⟨[], w, by simpa [applyStrip] using hw⟩
+    · obtain ⟨w, hw⟩ := lstrip_suffix s
+      exact ⟨w, [], by simpa [applyStrip] using hw⟩
+    · obtain ⟨w, hw⟩ := lstrip_suffix s
+      obtain ⟨w', hw'⟩ := rstrip_prefix (lstrip s)
+      refine ⟨w, w', ?_⟩
+      simp only [applyStrip, if_true]
+      rw [← hw', ← hw]
+  obtain ⟨w1, w2, hs⟩ := hsplit
+  cases hv : startsWith p (applyStrip a b s) with
+  | false => rfl
+  | true =>
+    have hne : applyStrip a b s ++ w2 ≠ [] := by
+      intro h0
+      have : applyStrip a b s = [] := (List.append_eq_nil_iff.mp h0).1
+      rw [this] at hv
+      cases p with
+      | nil => exact hp rfl
+      | cons x xs => simp [startsWith] at hv
+    rw [hs] at h
+    have h1 := allSuffixes_split f w1 (applyStrip a b s ++ w2) next hne h
+    have h2 := hf ((applyStrip a b s ++ w2) ++ next)
+      (by rw [List.append_assoc]; exact startsWith_append p _ _ hv)
+    rw [h1] at h2
+    cases h2
+
+/-- Under the default delimiters (with or without shorthand comments) a well-formed text piece is clean: the
+side condition of the theorems follows from `srcWf`. -/
+theorem wf_text_clean (d : Delims) (hd1 : d.tagS = ['{', '%']) (hd2 : d.stmtS = ['{', '{']) (s next : Str)
+    (h : (Piece.text s).wf d next = true) : textClean s = true := by
+  simp only [Piece.wf, Bool.and_eq_true] at h
+  have h2 := h.2
+  have hA := strip_variant_clean (fun t => !startsMarkup d t) ['{', '{'] (by simp)
+    (by intro t ht; simp [startsMarkup, hd2, ht]) s next h2
+  have hB := strip_variant_clean (fun t => !startsMarkup d t) ['{', '%'] (by simp)
+    (by intro t ht; simp [startsMarkup, hd1, ht]) s next h2
+  simp [textClean, braceStart, hA, hB]
+
+
 end LiquidVerif.Lex
